@@ -7,7 +7,7 @@ import pktgen, scen
 class Prop(PropBase):
     pid = 'C02'
     kernels = []
-    vo_targets = ['Props/Properties_C02.vo', 'Proofs/Coords.vo', 'Proofs/FloatErr.vo']
+    vo_targets = ['Props/Properties_C02.vo', 'Proofs/Coords.vo', 'Proofs/FloatErr.vo', 'Proofs/Transform.vo']
     prop_files = ['Props/Properties_C02.v']
     rule = ('all 17 types; large ranges (>= 150 m, where a 0.01 deg index error is > 2.6 cm), azimuths within a step of 0/360 deg, calibrations at +-89.99 / +-20 deg, '
             'both echo modes, rpm 300/600/1200/2400, FOV gaps, Bpearl v3/v4 and reversal, Ruby Plus 80/80v model bytes, M1 pitch/yaw over the table range, signed unit vectors; '
@@ -16,6 +16,49 @@ class Prop(PropBase):
     explanation = 'C02_T1..T3 (Coq: table indices exact and unclamped under the property ranges (finite sweep of the azimuth interpolation), float-evaluation error budget < 1 mm (Interval), variant tables) + correspondence of x,y,z'
     assumptions = ['Trigon tables within 2^-23 of sin/cos (validated numerically by the correspondence, not proved)', 'no FMA contraction / extended precision in the build (x86-64 SSE)']
     projection = {'kinds': {'cloud', 'p', 'open', 'crash', 'nodrv'}, 'ignore_ts': True, 'ignore_buf': True}
+    # the transform build: rotated points are judged against the length of the whole vector (+ the largest translation used)
+    projection_tf = {'kinds': {'cloud', 'p', 'open', 'crash', 'nodrv'}, 'ignore_ts': True, 'ignore_buf': True, 'xyz_rigid_tol': 90.0}
+    harness_variants = ['asan', 'asan+transform']
+    defines = {'asan+transform': ('ENABLE_TRANSFORM',)}
+
+    def variant_for(self, bname):
+        return 'asan+transform' if bname == 'tf' else 'asan'
+
+    def judge(self, bname, *a, **kw):
+        keep = self.projection
+        if bname == 'tf':
+            self.projection = self.projection_tf
+        try:
+            return PropBase.judge(self, bname, *a, **kw)
+        finally:
+            self.projection = keep
+
+    TF_CASES = [
+        (0.0, 0.0, 0.0, 0.0, 0.0, 0.0),                    # identity
+        (1.5, -2.25, 0.75, 0.0, 0.0, 0.0),                 # pure translation
+        (0.0, 0.0, 0.0, 0.3, 0.0, 0.0), (0.0, 0.0, 0.0, 0.0, -0.4, 0.0), (0.0, 0.0, 0.0, 0.0, 0.0, 1.1),   # one axis at a time
+        (0.0, 0.0, 0.0, math.pi / 2, 0.0, math.pi / 2),    # quarter turns: the order of the rotations is visible
+        (0.0, 0.0, 0.0, 0.5, 0.5, 0.0), (0.0, 0.0, 0.0, 0.0, 0.5, 0.5), (0.0, 0.0, 0.0, 0.5, 0.0, 0.5),   # pairs: order of each pair
+    ]
+
+    def tf_scenarios(self, rng, tier):
+        out = []
+        reps = 1 if tier == 'quick' else 4
+        far = lambda r_: r_.choice([30000, 40000, 60000, 65535, 20000, 2000])
+        k = 0
+        for r in range(reps):
+            for t in scen.ALL:
+                if t == 'RSM1_JUMBO' and r > 0:
+                    continue
+                # every type meets the fixed cases in turn and a fully random pose
+                tfs = [self.TF_CASES[(k + j) % len(self.TF_CASES)] for j in range(2)]
+                tfs.append((rng.uniform(-50, 50), rng.uniform(-50, 50), rng.uniform(-50, 50), rng.uniform(-3.2, 3.2), rng.uniform(-1.6, 1.6), rng.uniform(-3.2, 3.2)))
+                k += 2
+                for j, tf in enumerate(tfs):
+                    cfg = scen.rand_cfg(rng, dense=rng.randrange(2), wait=0 if rng.random() < 0.3 else 1, pktcb=0, min=0.0, max=0.0, tf=tf)
+                    out.append(scen.mixed_scenario(rng, self.L, t, f'c02_tf_{t}_{r}_{j}', cfg, malformed_p=0.0, badblk_p=0.0, gap_p=0.1,
+                                                   dist=far, rpm=rng.choice([600, 1200]), npk=2 if t != 'RSM1_JUMBO' else 1))
+        return out
 
     def generate(self, rng, tier):
         scn_all = []
@@ -52,7 +95,7 @@ class Prop(PropBase):
         s.pkt(0, l.mems_sub(1, blocks, return_mode=4))
         scn_all.append(s.text())
         self.corpus['c02_corpus_mx_negative_x'] = ('mx-unsigned-x', [-5.0, 2.5, -2.5])
-        return [('drv', '\n'.join(scn_all) + '\n')]
+        return [('drv', '\n'.join(scn_all) + '\n'), ('tf', '\n'.join(self.tf_scenarios(rng, tier)) + '\n')]
 
     def oracle(self, name, impl, model, scn):
         if name in self.corpus:
